@@ -55,3 +55,13 @@ def rename_updates_ranges(new, **kw):
     found = table.get_named_ranges(table_name=new2)
     ok = table.name == new2 and r1.table_name == new2 and r1.crange == (0, 0, 1, 1) and r2.table_name == "zz" and len(found) == 1 and found[0].name == "rng_a"
     return (not ok), f"after renaming t1 to {new2!r}: r1 points to {r1.table_name!r} {r1.crange}, r2 to {r2.table_name!r}; ranges found for the new name: {[f.name for f in found]}"
+
+
+def nr_read_is_pure(bx, by, x, y, **kw):
+    from odfdo.utils.coordinates import digit_to_alpha
+    rng = "$t1.$" + digit_to_alpha(x) + "$" + str(y + 1) + ":.$" + digit_to_alpha(x + 1) + "$" + str(y + 2)
+    base = "$t1.$" + digit_to_alpha(bx) + "$" + str(by + 1)
+    xml = f'<table:named-range table:name="rng" table:base-cell-address="{base}" table:cell-range-address="{rng}"/>'
+    nr = Element.from_tag(xml)
+    ok = nr.table_name == "t1" and nr.crange == (x, y, x + 1, y + 1) and nr.get_attribute("table:base-cell-address") == base and nr.get_attribute("table:cell-range-address") == rng
+    return (not ok), f"named range stored with base {base} range {rng}: after wrapping base {nr.get_attribute('table:base-cell-address')!r} range {nr.get_attribute('table:cell-range-address')!r}, crange {nr.crange}"
